@@ -1279,7 +1279,7 @@ def gen_wfm_reduce(repo):
     ast = T.ast
     m = T.Module(f"{repo}/src/nitypes/waveform/_numeric.py", "Gen.WfmReduce")
     WINDOW = "return self._data[self._start_index:self._start_index + self._sample_count]"
-    args_tbl, kw_tbl, params_tbl = [], [], []
+    args_tbl, kw_tbl, params_tbl, eq_tbl = [], [], [], []
     for path, cls, data_kw in (("waveform/_numeric.py", "NumericWaveform", "raw_data"), ("waveform/_digital/_waveform.py", "DigitalWaveform", "data"),
                                ("waveform/_spectrum.py", "Spectrum", "data")):
         mod = T.Module(f"{repo}/src/nitypes/{path}", "Gen.WfmReduce")
@@ -1332,6 +1332,29 @@ def gen_wfm_reduce(repo):
                 raise T.Untranslatable(f"{cls}.__reduce__: keyword `{ast.unparse(k) if k else '**'}`", rb[1], mod.path)
             kws.append((k.value, word(v)))
         kw_tbl.append((cls, kws))
+        # __eq__: the class guard, then one conjunction of member comparisons
+        fe, eb = body_of("__eq__")
+        if len(eb) != 2 or ast.unparse(eb[0]) != "if not isinstance(value, self.__class__):\n    return NotImplemented" \
+                or not isinstance(eb[1], ast.Return) or not isinstance(eb[1].value, ast.BoolOp) or not isinstance(eb[1].value.op, ast.And):
+            raise T.Untranslatable(f"{cls}.__eq__: not the class guard followed by one `return a and b and ...`", fe, mod.path)
+        for extra in ("start_frequency", "frequency_increment"):
+            if extra in funcs:
+                _, b = body_of(extra)
+                if [ast.unparse(x) for x in b] == [f"return self._{extra}"]:
+                    words[f"self.{extra}"] = extra
+        members = []
+        for cj in eb[1].value.values:
+            if isinstance(cj, ast.Compare) and len(cj.ops) == 1 and isinstance(cj.ops[0], ast.Eq):
+                l, r = cj.left, cj.comparators[0]
+            elif isinstance(cj, ast.Call) and ast.unparse(cj.func) == "np.array_equal" and len(cj.args) == 2 and not cj.keywords:
+                l, r = cj.args
+            else:
+                raise T.Untranslatable(f"{cls}.__eq__: conjunct `{ast.unparse(cj)}`", cj, mod.path)
+            ls, rs = ast.unparse(l), ast.unparse(r)
+            if not ls.startswith("self.") or rs != "value." + ls[5:]:
+                raise T.Untranslatable(f"{cls}.__eq__: `{ast.unparse(cj)}` does not compare one member of both objects", cj, mod.path)
+            members.append(word(l))
+        eq_tbl.append((cls, members))
         fi, _ = body_of("__init__")
         if fi.args.vararg or fi.args.kwarg or fi.args.posonlyargs:
             raise T.Untranslatable(f"{cls}.__init__: *args / **kwargs", fi, mod.path)
@@ -1357,6 +1380,9 @@ def gen_wfm_reduce(repo):
     m.out.append("/-- generated from `__init__`: positional and keyword-only parameters -/")
     m.out.append("@[pygen] def ctor_params : List (String × List String × List String) := [\n  "
                  + ",\n  ".join(f"({json.dumps(c)}, {lst(a)}, {lst(k)})" for c, a, k in params_tbl) + "]")
+    m.out.append("")
+    m.out.append("/-- generated from `__eq__` (after the class guard): the members compared, in the source's order -/")
+    m.out.append("@[pygen] def eq_members : List (String × List String) := [" + ", ".join(f"({json.dumps(c)}, {lst(a)})" for c, a in eq_tbl) + "]")
     m.out.append("")
     m.out.append("/-- generated: `_unpickle` of each class is `cls(*args, **kwargs)` after copying a data array that does not own its memory -/")
     m.out.append("@[pygen] def unpickle_is_ctor_call : List String := " + lst([c for c, _ in args_tbl]))
